@@ -158,6 +158,18 @@ def instance_of(draw, schema, depth=0):
                 sub = {}
             out.append(draw(instance_of(sub, depth + 1)))
         if "contains" in s and isinstance(s["contains"], dict) and draw(st.booleans()):
+            # the satisfying item comes last, sometimes after several fillers that do NOT satisfy it
+            if draw(st.booleans()):
+                from vlib import ref6
+
+                sub = items if isinstance(items, dict) else {}
+                fillers = [draw(instance_of(sub, depth + 1)) for _ in range(draw(st.integers(3, 4)))]
+                try:
+                    fillers = [x for x in fillers if ref6.validate(s["contains"], x) is False]
+                except Exception:  # noqa: BLE001 - aiming only
+                    fillers = []
+                if len(fillers) >= 3:
+                    out = fillers
             out.append(draw(instance_of(s["contains"], depth + 1)))
         return out
     if ty == "object":
